@@ -99,7 +99,9 @@ def functions_overlapping(path: Path, spans: list[tuple[int, int]]) -> list[tupl
         if isinstance(node, (ast.FunctionDef, ast.AsyncFunctionDef)):
             a, b = node.lineno, node.end_lineno or node.lineno
             if any(not (b < s or a > e) for s, e in spans):
-                out.append((node.name, a, b))
+                body = node.body[0].lineno if node.body else a + 1
+                # (first body line - 1): the signature lines run at import time (default values, annotations), not when the function runs
+                out.append((node.name, body - 1, b))
     return sorted(set(out), key=lambda x: x[1])
 
 
